@@ -3,6 +3,7 @@
    the boolean form of the properties evaluated on the implementation's trace. *)
 From Verif.Lib Require Import GoSem.
 From Verif.Model Require Export Lookup.
+From Verif.Model Require Import Followup.
 Local Open Scope N_scope.
 
 Record case := {
@@ -85,10 +86,42 @@ Record mobs := {
   m_ok : bool;                 (* the model accepted the schedule and did not panic *)
   m_res : lresult; m_events : list levent; m_requests : list id; m_reason : option reason }.
 
+(* the follow-up wait loop (Model/Followup.v) driven by what the harness did: the j-th completion makes
+   the stop function true (StopAfterFollowups j), the context is cancelled after k completions *)
+Fixpoint followup_events (fuel done : nat) (stop_at cancel_at : option nat) : list fevent :=
+  match fuel with
+  | O => []
+  | S f =>
+      match cancel_at with
+      | Some k => if Nat.eqb k done then [FCancel] ++ followup_drain f else
+                  FDone (match stop_at with Some j => Nat.leb j (S done) | None => false end)
+                  :: followup_events f (S done) stop_at cancel_at
+      | None => FDone (match stop_at with Some j => Nat.leb j (S done) | None => false end)
+                :: followup_events f (S done) stop_at cancel_at
+      end
+  end
+with followup_drain (fuel : nat) : list fevent :=
+  match fuel with O => [] | S f => FDone false :: followup_drain f end.
+
+Fixpoint frun_prefix (s : fstate) (evs : list fevent) : fstate :=
+  match evs with
+  | [] => s
+  | e :: r => match fstep s e with Some s' => frun_prefix s' r | None => s end
+  end.
+
+Definition followup_completed (c : case) (n : nat) (completed0 : bool) : bool :=
+  let stop_at := match cStop (c_cfg c) with StopAfterFollowups j => Some j | _ => None end in
+  f_completed (frun_prefix (finit n completed0) (followup_events (2 * n + 2) 0 stop_at (c_cancel_followup c))).
+
 Definition model_obs (c : case) : mobs :=
   match run_search (c_cfg c) (env_of (c_env c)) (c_seeds c) (c_evs c) with
   | RDone s =>
-      let (r, fr) := followup (c_cfg c) s (c_cancelled_before_followup c) (c_cancel_followup c) in
+      let (r0, fr) := followup (c_cfg c) s (c_cancelled_before_followup c) (c_cancel_followup c) in
+      let r := match fr with
+               | [] => r0
+               | _ => {| r_peers := r_peers r0; r_states := r_states r0; r_closest := r_closest r0;
+                         r_completed := followup_completed c (length fr) (r_completed (construct_result (c_cfg c) s)) |}
+               end in
       {| m_ok := true; m_res := r; m_events := evlog s; m_requests := reqs s ++ fr; m_reason := term s |}
   | _ => {| m_ok := false;
             m_res := {| r_peers := []; r_states := []; r_closest := []; r_completed := false |};
